@@ -176,7 +176,7 @@ P("C10", module="AJ.Props.C10All", extra=[("AJ.Props.C10", ["C10"]), ("AJ.Props.
   suites=lambda tier: [S.JsonAnySuite(cfg=DEF), S.JsonAnySuite(cfg=CFG_ALL, n=6000 if tier == "quick" else 300000), S.JsonAnySuite(cfg=CFG_NOUNI, n=3000 if tier == "quick" else 100000)],
   partial=["finality of InvalidInput for Dangling texts other than a lone sign"])
 
-P("C11", module="AJ.Props.C11All", extra=[("AJ.Props.C11", ["C11"]), ("AJ.Props.C11Full", ["C11"]), ("AJ.Props.C11Mp", ["C11"]), ("AJ.Props.C11Mem", ["C11"]), ("AJ.Props.C11Doc", ["C11"]), ("AJ.Props.C11Slot", ["C11"]), ("AJ.Props.C11MpSlot", ["C11"]), ("AJ.Props.C11MpDoc", ["C11"]), ("AJ.Props.C11MemRun", ["C11"])],
+P("C11", module="AJ.Props.C11All", extra=[("AJ.Props.C11", ["C11"]), ("AJ.Props.C11Full", ["C11"]), ("AJ.Props.C11Mp", ["C11"]), ("AJ.Props.C11Mem", ["C11"]), ("AJ.Props.C11Doc", ["C11"]), ("AJ.Props.C11Slot", ["C11"]), ("AJ.Props.C11MpSlot", ["C11"]), ("AJ.Props.C11MpDoc", ["C11"]), ("AJ.Props.C11MemRun", ["C11"]), ("AJ.Props.C11MpMemRun", ["C11"])],
   level_text="Theorem C11.json_projection_all_inputs: for every configuration, nesting limit, filter and input on which the unfiltered run returns Ok, the filtered run returns Ok, the "
   "projection (lean/AJ/Spec/Filter.lean: recursive, `*` wildcard, first array element, false removes, null falls back to `*`) of the unfiltered document, and the same number of bytes consumed - "
   "repeated keys, dialect extensions and trailing bytes included; C11.skip_and_filter_simulate_parse: skipping a value leaves the reader in literally the same state as parsing it; "
@@ -188,7 +188,7 @@ P("C11", module="AJ.Props.C11All", extra=[("AJ.Props.C11", ["C11"]), ("AJ.Props.
   "C11.projected_strings_subset / projected_string_bytes_le / projected_tree_slots_le / projected_live_slots_le - a document reading back as the projection of another stores a subset of its strings, no more "
   "string bytes, tree slots or live slots; C11.filtered_run_holds_no_more: for EVERY input, filter, configuration and pair of starting documents, if the unfiltered slot-level run answers Ok and the filtered run "
   "met no allocation failure, the document the filtered run leaves stores a subset of the strings of the unfiltered one, no more string bytes, no more string nodes, no more allocator bytes for strings, "
-  "no more live slots (run_slots_eq_value: live slots = slotsOf(value) exactly). Pairs (input, filter) are "
+  "no more live slots (run_slots_eq_value: live slots = slotsOf(value) exactly); C11.filtered_mp_run_holds_no_more: the same for deserializeMsgPack (models MDDF/MDD). Pairs (input, filter) are "
   "run through the real library, compared with the model and with the projection of the unfiltered result computed independently; memory requested by both runs is compared.",
   level_note="the memory clause as stated (total requested) is false on the implementation (two known findings); what is proved is the comparison of what the two documents HOLD (strings, slots), "
   "and the requests themselves are tied to the slot-level model by the allocator log",
@@ -310,7 +310,7 @@ P("C05", module="AJ.Props.C05All", extra=[("AJ.Props.C05", ["C05"]), ("AJ.Props.
   ([S.FaultSuite(cfg=G[g], nh=2000) for g in ("id1", "tiny2", "id1c10")] if tier == "thorough" else []),
   partial=["allocation failures inside the compiled binary are exercised by schedules, not enumerated exhaustively; the theorems are about the slot-level models tied by the allocator log"])
 
-P("C06", module="AJ.Props.C06All", extra=[("AJ.Props.C19", ["C06"]), ("AJ.Props.C06Doc", ["C06"]), ("AJ.Props.C05Deser", ["C06"]), ("AJ.Props.C05MpDeser", ["C06"]), ("AJ.Props.C06Mem", ["C06"]), ("AJ.Props.C06FExact", ["C06"]), ("AJ.Props.C05FMpDeser", ["C06"])],
+P("C06", module="AJ.Props.C06All", extra=[("AJ.Props.C19", ["C06"]), ("AJ.Props.C06Doc", ["C06"]), ("AJ.Props.C05Deser", ["C06"]), ("AJ.Props.C05MpDeser", ["C06"]), ("AJ.Props.C06Mem", ["C06"]), ("AJ.Props.C06FExact", ["C06"]), ("AJ.Props.C05FMpDeser", ["C06"]), ("AJ.Props.C06FMpExact", ["C06"])],
   level_text="Theorems at the slot-pool level: a released slot is reused before any allocator call, the allocator is called only "
   "when the free list is empty and the last pool is full or absent, clear() releases exactly one block per pool plus the heap table and nothing else. At document level (C06Doc): "
   "free_after_clear / clear_then_add(s)_no_allocator_call - the slots released by clearing a subtree are exactly those handed out by the next insertions, with no allocator call; "
@@ -322,7 +322,7 @@ P("C06", module="AJ.Props.C06All", extra=[("AJ.Props.C19", ["C06"]), ("AJ.Props.
   level_note="C06Mem: deser_memory_linear / mp_deser_memory_linear - for EVERY input, code and failure schedule the memory held by the slot-level deserializers is at most A + B*n (n = bytes consumed; A = one pool + "
   "one maximum-size string while parsing, B = slotSize + 2*poolSize + 1 + string overhead): slots handed out <= n, string bytes <= n, builder/buffer capacity <= maxStrLen, counts announced by MessagePack headers "
   "allocate nothing in advance; C06FExact: deser_tight / filtered_deser_tight / deser_strings_stored_once - after a run without allocation failure (filtered or not, any prior document) every stored string is referenced "
-  "exactly as often as its counter says and at least once, no two stored strings are equal, and every live slot is part of the tree (nothing leaked); key_leaked_on_failure: the kernel-checked witness that the "
+  "exactly as often as its counter says and at least once, no two stored strings are equal, and every live slot is part of the tree (nothing leaked) - the same for deserializeMsgPack (mp_deser_tight, filtered_mp_deser_tight: any answer other than NoMemory); key_leaked_on_failure / mp_key_leaked_on_failure: the kernel-checked witness that the "
   "no-failure hypothesis is needed (a key saved before its member's slot allocation fails stays in the table until clear()); the same bound is checked on the instrumented allocator (total requested and peak) for sampled and hostile inputs; moved-from/swapped documents are covered by the correspondence",
   suites=lambda tier: [S.HistSuite(cfg=G["default"]), S.HistSuite(cfg=G["tiny1"], nh=40 if tier == "quick" else 2000), S.FaultSuite(cfg=G["default"], nh=60 if tier == "quick" else 2000),
                        S.MpDeSuite(cfg=DEF, n=600 if tier == "quick" else 50000), S.DeserMemSuite(cfg=DEF), S.JsonDocSuite(cfg=DEF, n=800 if tier == "quick" else 60000), S.MpDocSuite(cfg=DEF, n=800 if tier == "quick" else 60000), S.LimitSuite(cfg=G["len1"]), S.LimitSuite(cfg=G["id1"]),
